@@ -7,6 +7,9 @@ from .strictdiff import replay_generic, report, strict_pair
 
 ID = "C05"
 LEVEL = "fault_enumeration"
+MIX = True  # a share of the decodes goes through the other front ends and byte sources (context.py)
+HISTORY = True  # every second shard first runs a prelude of earlier library use (history.py)
+OLANE = True  # two more shards run in an interpreter started with -O (runner.start_olane)
 RULE = (
     "every truncation point 0..len-1 of every hypothesis-generated well-formed message (all structure types, commands, responses) "
     "and command/response stream, appended suffixes of 1..8 bytes, and the empty input for every type. Oracle: reference strict "
